@@ -197,6 +197,43 @@ package keeper
 //@   ensures forall d: str :: {res[d]} res[d] >= coinsToDistribute[d]
 //@   prop C03 C14 C10
 
+//@ // what Account.Validate established for a configured source (and that it is not the distributor's own main account)
+//@ pred sourceOK(src) = (src.Type == "MODULE_ACCOUNT" ==> moduleExists(src.Id) && modaddr(src.Id) != MAIN())
+//@   && (src.Type != "MODULE_ACCOUNT" && src.Type != "INTERNAL_ACCOUNT" && src.Type != "MAIN" ==> bech32ok(src.Id) && fromBech32(src.Id) != MAIN())
+//@ // a non-main source adds to the unbooked coins on the main account exactly what it reports as inflow
+//@ func (k Keeper) prepareCoinToDistributeForNotMainAccount(ctx, source, states, subDistributorName) (res)
+//@   requires sourceOK(source) && source.Type != "MAIN"
+//@   requires off(states) == 0 && statesHaveAccounts(states) && remainsNonNeg(states)
+//@   modifies $bal, $accTag, $accSeq, $accPub, elems(states)
+//@   ensures existingAccountsUntouched() && $supply == old($supply)
+//@   ensures statesHaveAccounts(states) && remainsNonNeg(states)
+//@   ensures [books] forall d: str :: {res[d]} unbooked(states, d) == old(unbooked(states, d)) + res[d]
+//@   ensures forall d: str :: {res[d]} res[d] >= 0 && $bal[MAIN()][d] >= old($bal[MAIN()][d])
+//@   prop C03 C14 C10
+
+//@ pred sourcesOK(srcs) = forall k: int :: {srcs[k]} 0 <= k && k < len(srcs) ==> srcs[k] != nil && sourceOK(srcs[k])
+//@ // is the main account among the first n sources
+//@ spec func mainAmong(ptrs [int]int, typ [int]str, o int, n int) bool = n <= 0 ? false : (mainAmong(ptrs, typ, o, n - 1) || typ[ptrs[o + n - 1]] == "MAIN")
+//@ pred mainAmongOf(srcs, n) = mainAmong(elemRow(srcs), heapOf("types.Account", "Type"), off(srcs), n)
+//@ // The inflow of one sub-distributor. Afterwards everything the main account holds beyond the recorded remains is either
+//@ // this inflow (if the main account is one of the sources) or the old surplus plus this inflow: each coin is counted once,
+//@ // whatever the order of the sources (C03), and a failed sweep contributes nothing (C14).
+//@ func (k Keeper) PrepareCoinsToDistribute(sources, ctx, states, subDistributorName) (res)
+//@   requires sourcesOK(sources)
+//@   requires off(states) == 0 && statesHaveAccounts(states) && remainsNonNeg(states)
+//@   requires forall d: str :: {$bal[MAIN()][d]} unbooked(states, d) >= 0 && $bal[MAIN()][d] >= 0
+//@   modifies $bal, $accTag, $accSeq, $accPub, elems(states)
+//@   ensures existingAccountsUntouched() && $supply == old($supply)
+//@   ensures statesHaveAccounts(states) && remainsNonNeg(states)
+//@   ensures forall d: str :: {res[d]} res[d] >= 0 && $bal[MAIN()][d] >= 0
+//@   ensures [books] forall d: str :: {res[d]} unbooked(states, d) == (mainAmongOf(sources, len(sources)) ? 0 : old(unbooked(states, d))) + res[d]
+//@   prop C03 C14 C10
+//@ loop Keeper.PrepareCoinsToDistribute#1
+//@   invariant 0 <= \i && \i <= len(sources)
+//@   invariant statesHaveAccounts(states) && remainsNonNeg(states) && existingAccountsUntouched() && $supply == old($supply)
+//@   invariant forall d: str :: {allCoinsToDistribute[d]} allCoinsToDistribute[d] >= 0 && $bal[MAIN()][d] >= 0
+//@   invariant forall d: str :: {allCoinsToDistribute[d]} unbooked(states, d) == (mainAmongOf(sources, \i) ? 0 : old(unbooked(states, d))) + allCoinsToDistribute[d]
+
 //@ // ---- C13: only governance changes the parameters; what is stored was validated; a rejected update changes nothing ----
 //@ spec func dpKey() str = global("types.ParamsKey")
 //@ pred storedDistParamsOK(k) = $kvHas[storeOf(k.storeKey)][dpKey()] && distParamsValid(decSnap("types.Params", $kvVal[storeOf(k.storeKey)][dpKey()]))
